@@ -249,6 +249,20 @@ class Engine:
             return z3.String(n)
         raise Unsupported(sort)
 
+    def decide(self, c, site):
+        """fork the path on a symbolic condition (both outcomes are explored as separate paths); returns the outcome on this path"""
+        if isinstance(c, bool):
+            return c
+        base = self.pc + [zbool(self.guard())]
+        ft, ff = feasible(base + [c]), feasible(base + [znot(c)])
+        if ft and not ff:
+            return True
+        if ff and not ft:
+            return False
+        if not ft and not ff:
+            return False
+        return self.oracle.choose(self, site, [c, znot(c)]) == 0
+
     # ---------- merging ----------
     def ite(self, g, new, old):
         if g is True:
@@ -584,7 +598,12 @@ class Engine:
         e = st.exc
         if isinstance(e, ast.Call):
             cls = self.eval(e.func)
-            args = [self.eval(a) for a in e.args]
+            args = []
+            for a in e.args:
+                if isinstance(a, ast.Starred):
+                    args.extend(self.iterate(self.eval(a.value), concat=True))
+                else:
+                    args.append(self.eval(a))
         else:
             cls = self.eval(e)
             args = []
